@@ -18,6 +18,26 @@ CHECKS = {
              "(boxes, sectors), degrees 1-3, 1-2 spans per direction; predefined assemblers for the system comparison."),
 }
 
+CHECKS["C02"] = dict(
+    category="model_checking", design_ref="DESIGN.md §3 C02",
+    technique="bounded-exhaustive enumeration of knot-vector shapes (degree x breakpoint pattern x all interior multiplicity "
+              "vectors) x point sets (breakpoints, adjacent floats, Gauss nodes) x derivative orders x routes, against an "
+              "exact Cox-de Boor reference in rational arithmetic",
+    text="Every knot vector of the shape alphabet (p 0..4 quick, 0..6 + 7..12 on three patterns thorough) is evaluated at every "
+         "point of its point set through every evaluation/collocation/spline/tensor-product route and compared with exact "
+         "rational Cox-de Boor values; linear routes are decided on every unit coefficient vector.",
+    note="Trusted: fractions.Fraction arithmetic, ref/bsp.py; breakpoints from a finite alphabet spanning 6 decades; "
+         "norm-wise tolerance 1e-10 per derivative row (observed <= 1e-12).")
+CHECKS["C19"] = dict(
+    category="model_checking", design_ref="DESIGN.md §3 C19",
+    technique="literally exhaustive enumeration of constructor arguments (all p<=6, n<=N, mult, 24 intervals), of all "
+              "breakpoints +-1 ulp for span lookup, of all subsets of candidate knots for refine and of all ordered pairs "
+              "of an equality alphabet, with exact rational reference values",
+    text="make_knots is run for every (p, n, mult) up to n=600 (quick) / 2000 (thorough) on [0,1] and n<=100/300 on 24 "
+         "intervals; queries (mesh, supports, span indices, Greville, findspan at every breakpoint and adjacent floats), "
+         "refine, __eq__ and Spline.derivative are enumerated over finite alphabets.",
+    note="Trusted: fractions.Fraction, numpy; intervals from a fixed grid, not all floats; spacing tolerance 4 eps * max(|a|,|b|).")
+
 NOT_YET = {}
 
 
